@@ -1548,6 +1548,8 @@ class RTCSctpTransport(AsyncIOEventEmitter):
                 if channel.negotiated and channel.readyState == "connecting":
                     channel._setReadyState("open")
             asyncio.ensure_future(self._data_channel_flush())
+            if self._reconfig_queue:
+                asyncio.ensure_future(self._transmit_reconfig())
         elif state == self.State.CLOSED:
             self._t1_cancel()
             self._t2_cancel()
@@ -1775,11 +1777,13 @@ class RTCSctpTransport(AsyncIOEventEmitter):
         if channel.readyState not in ["closing", "closed"]:
             channel._setReadyState("closing")
 
-            if (
-                self._association_state == self.State.ESTABLISHED
-                and channel.id is not None
+            if channel.id is not None and self._association_state in (
+                self.State.ESTABLISHED,
+                self.State.COOKIE_WAIT,
+                self.State.COOKIE_ECHOED,
             ):
-                # queue a stream reset
+                # queue a stream reset; while the association is still being set
+                # up it is sent as soon as the association is established
                 self._reconfig_queue.append(channel.id)
                 if len(self._reconfig_queue) == 1:
                     asyncio.ensure_future(self._transmit_reconfig())
